@@ -22,6 +22,7 @@ type sessGen struct {
 	vars    map[string]bool
 	consts  map[string]bool
 	flavors []string
+	classes []string
 	pkgs    []string
 	curPkg  string
 	wild     bool // may leave the guard
@@ -65,8 +66,9 @@ var flavorNames = []string{"fla", "flb", "flc"}
 var genNames = []string{"ga", "gb"}
 var classNames = []string{"cla", "clb"}
 
-var shortDocs = []string{"a short doc", "doc two", "x", "counts things", "the 2nd value (approx.)"}
-var wildDocs = []string{"has_underscore", "has \\\"quote\\\" inside", "back\\\\slash",
+// double quotes and backslashes are escaped by the pretty printer since repo_fixes/C19-17
+var shortDocs = []string{"a short doc", "doc two", "x", "counts things", "the 2nd value (approx.)", "has \\\"quote\\\" inside", "back\\\\slash", "say \\\"hi\\\" \\\\ twice"}
+var wildDocs = []string{"has_underscore",
 	"a long documentation string that goes on and on until it passes the right margin of one hundred and twenty columns, at which point the pretty printer wraps it",
 	"two\\nlines"}
 
@@ -151,27 +153,26 @@ func (g *sessGen) value() string {
 		}
 		return "#" + d
 	case x < 78:
+		// any number of entries (written in the order of their printed keys since repo_fixes/C19-8), values of every kind
+		// (repo_fixes/C19-6). The entries are put in in the harness's canonical order of keys (the order of their Gallina
+		// terms), which is the order the observed forms are compared in.
 		g.hist("value:hash-table")
-		n := g.r.Intn(2)
-		if g.wild && g.r.Chance(30) {
-			n = 2 + g.r.Intn(3)
+		n := g.r.Intn(4)
+		keys := []string{"1", "2", "\"sk\"", ":kk", "'ka", "'kb"} // sorted by gObj: (Fix (1)) (Fix (2)) (Str "sk") (Sym ":kk") (Sym "ka") (Sym "kb")
+		used := map[int]bool{}
+		for i := 0; i < n; i++ {
+			used[g.r.Intn(len(keys))] = true
 		}
 		s := "(let ((table (make-hash-table)))"
-		used := map[string]bool{}
-		for i := 0; i < n; i++ {
-			k := common.Pick(g.r, []string{"'ka", "'kb", "1", "2", "\"sk\"", ":kk"})
-			if used[k] {
+		for i, k := range keys {
+			if !used[i] {
 				continue
 			}
-			used[k] = true
-			v := common.Pick(g.r, []string{"1", "\"v\"", "2.5", ":x", "t", "#(1 2)"})
-			if g.wild && g.r.Chance(30) {
-				v = common.Pick(g.r, []string{"'(1 2)", "'sym"})
-			}
+			v := common.Pick(g.r, []string{"1", "\"v\"", "2.5", ":x", "t", "#(1 2)", "'(1 2)", "'sym", "'(a (b \"c\") . d)"})
 			s += fmt.Sprintf(" (setf (gethash %s table) %s)", k, v)
 		}
 		if len(used) > 1 {
-			g.wildText = true // Go's map order decides the order of the entries in the snapshot text
+			g.hist("value:hash-table-several-entries")
 		}
 		return s + " table)"
 	case x < 84:
@@ -184,13 +185,17 @@ func (g *sessGen) value() string {
 	case x < 90:
 		g.hist("value:type-symbol")
 		return common.Pick(g.r, []string{"'fixnum", "'list", "'string"})
+	case x < 95:
+		// a symbol as a value is written quoted (repo_fixes/C19-11)
+		g.hist("value:quoted-symbol")
+		return common.Pick(g.r, []string{"'abc", "'some-symbol", "'let"})
 	default:
-		if g.wild {
-			g.hist("value:quoted-symbol")
-			return common.Pick(g.r, []string{"'abc", "'some-symbol"})
-		}
-		g.hist("value:fixnum")
-		return fmt.Sprint(g.r.Intn(50))
+		// a list that cannot be quoted is built with (list ...) (repo_fixes/C19-14)
+		g.hist("value:list-holding-objects")
+		return common.Pick(g.r, []string{
+			"(list 1 (lambda (x) (* x 2)) '(a b))",
+			"(list (let ((table (make-hash-table))) (setf (gethash 'k table) '(1 2)) table) 'sym \"s\")",
+			"(list (list 1 (lambda (x) x)) :kw 2.5)"})
 	}
 }
 
@@ -294,6 +299,16 @@ func (g *sessGen) expr(vars []string, depth int) string {
 	}
 	// a wider range of special forms (every head symbol the pretty printer has a layout for, with argument counts at
 	// and beyond what the layout expects); all of them total and numeric, so that they nest
+	if len(g.macros) > 0 && g.curFun != "" && g.r.Chance(12) {
+		// a function body uses a macro, whatever its name: the macros are reloaded first (repo_fixes/C19-16)
+		var ms []string
+		for m := range g.macros {
+			ms = append(ms, m)
+		}
+		sort.Strings(ms)
+		g.hist("expr:macro-call")
+		return fmt.Sprintf("(%s %s)", ms[g.r.Intn(len(ms))], atom())
+	}
 	if g.r.Chance(45) {
 		return g.special(vars, depth, atom)
 	}
@@ -320,7 +335,9 @@ func (g *sessGen) expr(vars []string, depth int) string {
 			if oneArg(k) {
 				// never a cycle (probes must terminate); reloaded in name order: a tame body only calls what sorts
 				// before it (a function called before it is defined loses its name in the next snapshot)
-				if !g.reaches(n, g.curFun, map[string]bool{}) && ((g.wild && g.curFun != "") || n < g.curFun) {
+				// functions are reloaded in name order after the macros, and a function called before it is defined keeps
+				// its name (repo_fixes/C19-15): a body may call any function defined so far
+				if !g.reaches(n, g.curFun, map[string]bool{}) && g.curFun != "" {
 					cands = append(cands, n)
 				}
 			}
@@ -362,40 +379,29 @@ func (g *sessGen) expr(vars []string, depth int) string {
 		return atom()
 	default:
 		{
-			// functions and macros are reloaded together in name order: a tame body only uses macros that sort before it
+			// the macros are reloaded before the functions (repo_fixes/C19-16): a function body uses any macro
 			var ms []string
 			for m := range g.macros {
-				if m < g.curFun {
+				if g.curFun != "" {
 					ms = append(ms, m)
 				}
 			}
 			sort.Strings(ms)
 			if len(ms) > 0 && g.r.Chance(60) {
-				g.hist("expr:macro-call-earlier-name")
+				g.hist("expr:macro-call")
 				return fmt.Sprintf("(%s %s)", ms[g.r.Intn(len(ms))], atom())
 			}
 		}
-		if g.wild {
-			switch g.r.Intn(4) {
-			case 0:
-				g.hist("expr:backquote")
-				g.wildText = true
-				return fmt.Sprintf("(length `(a ,%s b))", atom())
-			case 1:
-				g.hist("expr:function-quote")
-				g.wildText = true
-				return fmt.Sprintf("(funcall #'1+ %s)", atom())
-			case 2:
-				var ms []string
-				for m := range g.macros {
-					ms = append(ms, m)
-				}
-				sort.Strings(ms)
-				if len(ms) > 0 && g.curFun != "" {
-					g.hist("expr:macro-call")
-					return fmt.Sprintf("(%s %s)", ms[g.r.Intn(len(ms))], atom())
-				}
-			}
+		if g.r.Chance(30) {
+			// a backquote form is written with the backquote (repo_fixes/C19-18)
+			g.hist("expr:backquote")
+			return fmt.Sprintf("(length `(a ,%s b ,@(list %s 1)))", atom(), atom())
+		}
+		if g.wild && g.r.Chance(40) {
+			// #'f is written (name f): TestCodeQuote asserts it [C19-function-quote]
+			g.hist("expr:function-quote")
+			g.wildText = true
+			return fmt.Sprintf("(funcall #'1+ %s)", atom())
 		}
 		g.hist("expr:progn")
 		return fmt.Sprintf("(progn %s %s)", atom(), g.expr(vars, depth-1))
@@ -486,12 +492,12 @@ func (g *sessGen) special(vars []string, depth int, atom func() string) string {
 	case 32:
 		return fmt.Sprintf("(let ((h (make-hash-table))) (setf (gethash 'k h) %s) (+ 1 (gethash 'k h)))", e())
 	default:
-		if !g.wild {
-			// a defparameter nested in a body makes the pretty printer (and with it the snapshot) fail once the
-			// enclosing form is wide [C19-pp-nested-definition]: outside the guard
+		if g.r.Chance(50) {
 			return fmt.Sprintf("(typecase %s (fixnum %s) (string 2) (t 3))", atom(), e())
 		}
-		return fmt.Sprintf("(progn (defparameter *scratch-%d* %s \"scratch doc\") (typecase *scratch-%d* (fixnum *scratch-%d*) (string 2) (t 3)))", k, atom(), k, k)
+		// a defparameter nested in a body is laid out relative to its own column (repo_fixes/C19-30)
+		g.hist("special:nested-defparameter")
+		return fmt.Sprintf("(progn (defparameter *scratch-%d* %s \"scratchdoc\") (typecase *scratch-%d* (fixnum *scratch-%d*) (string 2) (t 3)))", k, atom(), k, k)
 	}
 }
 
@@ -530,22 +536,19 @@ func (g *sessGen) slotValue(fl string, depth int) string {
 	case x < 92:
 		g.hist("slot:lambda")
 		return "(lambda (x) (* x 2))"
+	case x < 96:
+		g.hist("slot:quoted-symbol")
+		return "'sym"
 	default:
-		if g.wild {
-			g.hist("slot:quoted-symbol")
-			return "'sym"
-		}
-		g.hist("slot:atom")
-		return "11"
+		// a list holding an instance is built with (list ...) (repo_fixes/C19-14)
+		g.hist("slot:list-holding-instance")
+		return fmt.Sprintf("(list 1 (make-instance '%s) 'a)", fl)
 	}
 }
 
 // modelledFlavorStep: a flavor without components, a variable holding an instance of it, or a (send v :set-x value)
 func (g *sessGen) modelledFlavorStep() {
-	max := 1
-	if g.wild {
-		max = 2 // two unrelated flavors: their order in the snapshot is not stable (known finding)
-	}
+	max := 2 // flavors are written by name (repo_fixes/C19-20)
 	if len(g.flavors) < max && (len(g.flavors) == 0 || g.r.Chance(30)) {
 		n := flavorNames[len(g.flavors)]
 		g.hist("op:defflavor-modelled")
@@ -557,7 +560,9 @@ func (g *sessGen) modelledFlavorStep() {
 				if g.r.Chance(50) {
 					d = common.Pick(g.r, defaults)
 				}
-				if g.wild && g.r.Chance(15) {
+				if g.r.Chance(15) {
+					// a default is written as a form that evaluates to it (repo_fixes/C19-19)
+					g.hist("op:defflavor-quoted-default")
 					d = common.Pick(g.r, []string{"'red", "'(a b)"})
 				}
 				g.flavorVars[n] = append(g.flavorVars[n], flavorVar{n + suffix, d})
@@ -703,7 +708,9 @@ func (g *sessGen) step() {
 		g.consts[n] = true
 		g.hist("op:defconstant")
 		v := common.Pick(g.r, []string{"42", "\"cs\"", "2.5", ":ck", "t", "1/2", "#\\c"})
-		if g.wild && g.r.Chance(40) {
+		if g.r.Chance(40) {
+			// written by ppValue (repo_fixes/C19-12)
+			g.hist("op:defconstant-list-or-symbol")
 			v = common.Pick(g.r, []string{"'(1 2)", "'csym", "'(a (b))"})
 		}
 		f := "(defconstant " + n + " " + v
@@ -762,8 +769,8 @@ func (g *sessGen) step() {
 		case 1:
 			f = fmt.Sprintf("(defmacro %s (x) \"%s\" (list 'list x (list 'quote x)))", n, g.doc())
 		default:
-			if g.wild && g.r.Chance(50) {
-				g.wildText = true
+			if g.r.Chance(50) {
+				g.hist("op:defmacro-backquote")
 				f = fmt.Sprintf("(defmacro %s (x) `(* ,x %d))", n, 2+g.r.Intn(5))
 			} else {
 				f = fmt.Sprintf("(defmacro %s (x) (list '* x %d))", n, 2+g.r.Intn(5))
@@ -774,11 +781,13 @@ func (g *sessGen) step() {
 	case g.modelled:
 		// flavors without components and instances of them held by variables are in the Coq session model
 		// (Session.v: defflavor, make-instance, send :set-..., ppInstance); the remaining kinds are not
-		if g.wild && g.r.Chance(25) {
+		if g.r.Chance(15) {
+			// a variable without a value: only its defvar is written (repo_fixes/C19-13)
 			n := g.pick(varNames)
 			if !g.vars[n] {
 				g.hist("op:defvar-unbound")
 				g.add("(defvar " + n + ")")
+				g.probe(fmt.Sprintf("(boundp '%s)", n))
 			}
 			return
 		}
@@ -819,8 +828,8 @@ func (g *sessGen) step() {
 				g.vars[vn] = true
 				g.probe(fmt.Sprintf("(if (packagep %s) (package-name %s) %s)", vn, vn, vn))
 			}
-		} else if g.wild {
-			// variables and functions made inside a user package are not restored: outside the guard
+		} else {
+			// variables and functions made inside a user package (repo_fixes/C19-25, C19-27)
 			g.hist("op:in-package")
 			g.add("(in-package \"" + n + "\")")
 			g.curPkg = n
@@ -837,8 +846,8 @@ func (g *sessGen) step() {
 		}
 		g.hist("op:defflavor")
 		parents := ""
-		if len(g.flavors) > 0 && (g.r.Chance(70) || !g.wild) {
-			parents = g.flavors[len(g.flavors)-1] // a chain, unless wild
+		if len(g.flavors) > 0 && g.r.Chance(70) {
+			parents = g.flavors[len(g.flavors)-1] // a chain, or an unrelated flavor (written by name, repo_fixes/C19-20)
 		}
 		// own instance variables, some with defaults
 		type ivar struct{ name, def string }
@@ -853,8 +862,8 @@ func (g *sessGen) step() {
 				ivs = append(ivs, ivar{n + suffix, d})
 			}
 		}
-		if g.wild && g.r.Chance(30) {
-			ivs = append(ivs, ivar{n + "-r", "'red"})
+		if g.r.Chance(30) {
+			ivs = append(ivs, ivar{n + "-r", common.Pick(g.r, []string{"'red", "'(a b)"})}) // repo_fixes/C19-19
 		}
 		// a flavor may list an instance variable of a component again, with the same or with another default
 		inherited := append([]flavorVar{}, g.flavorVars[parents]...)
@@ -889,22 +898,11 @@ func (g *sessGen) step() {
 		}
 		iv := "(" + strings.Join(parts, " ") + ")"
 		opts := common.Pick(g.r, []string{"", " :gettable-instance-variables", " :gettable-instance-variables :settable-instance-variables :inittable-instance-variables", " :inittable-instance-variables :gettable-instance-variables (:documentation \"a flavor\")"})
-		if parents != "" && !g.wild {
-			// the inittable variables of a flavor with components are written in Go's map order: outside the guard
-			opts = common.Pick(g.r, []string{"", " :gettable-instance-variables", " :gettable-instance-variables :settable-instance-variables", " :gettable-instance-variables (:documentation \"a flavor\")"})
-			// ... and Flavor.LoadForm works out :gettable / :settable from the methods that exist for the variables it
-			// lists, so the options of a flavor with components come back narrower or wider than they were unless
-			// the whole chain has the same ones [C19-flavor-gettable-inherited]: outside the guard
-			opts = ""
-			if g.flavorGet[parents] {
-				opts += " :gettable-instance-variables"
-			}
-			if g.flavorSet[parents] {
-				opts += " :settable-instance-variables"
-			}
-			if g.r.Chance(40) {
-				opts += " (:documentation \"a flavor\")"
-			}
+		// a flavor with components may have any options: the inittable variables are sorted (e18df91), the gettable and
+		// settable options are taken from the accessors the flavor defined itself (repo_fixes/C19-21)
+		if parents != "" && g.r.Chance(30) && len(ivs) > 0 {
+			g.hist("op:defflavor-option-with-list")
+			opts = fmt.Sprintf(" (:gettable-instance-variables %s) :settable-instance-variables", ivs[0].name)
 		}
 		g.add(fmt.Sprintf("(defflavor %s %s (%s)%s)", n, iv, parents, opts))
 		g.flavors = append(g.flavors, n)
@@ -915,6 +913,18 @@ func (g *sessGen) step() {
 			g.probe(fmt.Sprintf("(slot-value (make-instance '%s) '%s)", n, k))
 		}
 		g.probe(fmt.Sprintf("(make-load-form '%s)", n))
+		if g.r.Chance(50) {
+			// the methods of a flavor are written after it (repo_fixes/C19-22)
+			g.hist("op:defmethod-flavor")
+			k := 2 + g.r.Intn(5)
+			g.add(fmt.Sprintf("(defmethod (%s :scale) (x) \"scales x\" (* %d x))", n, k))
+			g.probe(fmt.Sprintf("(send (make-instance '%s) :scale 4)", n))
+			if g.r.Chance(50) {
+				g.hist("op:defmethod-flavor-daemon")
+				g.add(fmt.Sprintf("(defmethod (%s :after :scale) (x) (setq %s-mark (list x %d)))", n, n, k))
+				g.add(fmt.Sprintf("(defwhopper (%s :scale) (x) (+ 1000 (continue-whopper x)))", n))
+			}
+		}
 		if strings.Contains(opts, ":inittable") {
 			g.flavorInit[n] = true
 		}
@@ -965,7 +975,7 @@ func (g *sessGen) step() {
 		if g.curPkg != "" || g.funs[n] != "" {
 			return
 		}
-		two := g.wild && strings.HasSuffix(n, "b") // gb: a second, unspecialised parameter
+		two := strings.HasSuffix(n, "b") // gb: a second, unspecialised parameter (repo_fixes/C19-23)
 		if g.funs["__gen:"+n] == "" {
 			g.hist("op:defgeneric")
 			f := "(defgeneric " + n + " (a)"
@@ -994,13 +1004,35 @@ func (g *sessGen) step() {
 			g.probe(fmt.Sprintf("(%s %s)", n, arg))
 		}
 	default:
-		if !g.wild || g.curPkg != "" {
+		if g.curPkg != "" {
 			return
 		}
+		// classes are written after the flavors (repo_fixes/C19-24); slots without readers, writers and accessors, which
+		// are written with keywords defclass rejects [C19-class-accessors-keyword]
 		n := g.pick(classNames)
+		for _, c := range g.classes {
+			if c == n {
+				return
+			}
+		}
 		g.hist("op:defclass")
-		g.add(fmt.Sprintf("(defclass %s () ((s1 :initarg :s1 :initform 1)))", n))
-		g.probe(fmt.Sprintf("(slot-value (make-instance '%s) 's1)", n))
+		super := ""
+		if len(g.classes) > 0 && g.r.Chance(60) {
+			super = g.classes[len(g.classes)-1]
+		}
+		g.add(fmt.Sprintf("(defclass %s (%s) ((%s-s1 :initarg :%s-s1 :initform %d) (%s-s2 :initform '(a b) :allocation :class)) (:documentation \"a class\"))", n, super, n, n, g.r.Intn(90), n))
+		g.classes = append(g.classes, n)
+		g.probe(fmt.Sprintf("(slot-value (make-instance '%s) '%s-s1)", n, n))
+		g.probe(fmt.Sprintf("(slot-value (make-instance '%s) '%s-s2)", n, n))
+		g.probe(fmt.Sprintf("(documentation '%s 'type)", n))
+		if g.r.Chance(60) {
+			vn := g.pick(varNames)
+			g.hist("op:defparameter-class-instance")
+			g.add(fmt.Sprintf("(defparameter %s (make-instance '%s :%s-s1 '(x %d)))", vn, n, n, g.r.Intn(9)))
+			g.vars[vn] = true
+			g.instVars[vn] = true
+			g.probe(fmt.Sprintf("(slot-value %s '%s-s1)", vn, n))
+		}
 	}
 }
 
